@@ -367,6 +367,13 @@ type c11MObs struct {
 func c11MRun(c *c11MCase) (o c11MObs) {
 	o.panicS = mc.Guard(func() {
 		w := c11NewWorld(c.Pods, &c.Cfg)
+		// a pod that an earlier round evicted and that is still terminating carries a deletionTimestamp (seed C11-5)
+		for i := range c.Already {
+			if c.Already[i] {
+				ts := metav1.NewTime(time.Unix(1700000000, 0))
+				w.pods[i].DeletionTimestamp = &ts
+			}
+		}
 		var tasks []*qosmanagerUtil.EvictTaskInfo
 		for _, f := range c11FeatureOrder {
 			sel := false
